@@ -449,6 +449,7 @@ class SemanticPointer(Fixed):
             if infer_types(self, other) == TAnyVocab:
                 self._ensure_algebra_match(other)
             other = other.evaluate().v
+        self._ensure_length_match(other)
         scale = np.linalg.norm(self.v) * np.linalg.norm(other)
         if scale == 0:
             return 0
